@@ -44,16 +44,16 @@ func c08Run(rc *simrt.RunCtx) {
 	rc.Knob("case", fmt.Sprintf("kk=%v recs=%d/%d same=%v big=%d", kk, nA, nB, samePlain, bigEvery))
 	rc.Sample("kk=%v records A->B=%d B->A=%d equal-plaintexts=%v big-every=%d", kk, nA, nB, samePlain, bigEvery)
 	type dir struct {
-		name    string
-		w, r    *Machine
-		wc, rc  *simConn
-		total   int
-		written int
-		read    int
-		sent    [][]byte
-		seenKN  map[knKey]int
-		seenCT  map[string]int
-		firstSg int
+		name          string
+		w, r          *Machine
+		wc, rc        *simConn
+		total         int
+		written       int
+		read          int
+		sent          [][]byte
+		seenKN        map[knKey]int
+		seenCT        map[string]int
+		firstSg       int
 		pending       []byte
 		pendingBefore knKey
 		hasPending    bool
@@ -89,7 +89,7 @@ func c08Run(rc *simrt.RunCtx) {
 	split := rc.Pick(2, "wl.split-write-flush") == 1
 	var finish func(d *dir, p []byte, before knKey) bool
 	finish = func(d *dir, p []byte, before knKey) bool {
-			after := knKey{d.w.sendCipher.secretKey, d.w.sendCipher.nonce}
+		after := knKey{d.w.sendCipher.secretKey, d.w.sendCipher.nonce}
 		if after == before {
 			rc.Violate("c08.nonce-reuse", "state-not-advanced", "%s: cipher state (key, nonce=%d) unchanged by record %d", d.name, before.nonce, d.written)
 			return false
